@@ -247,7 +247,10 @@ where
     }
 
     fn call(&mut self, req: Req) -> Self::Future {
-        let mut service = self.inner.clone();
+        // Take the instance that `poll_ready` was driven on and leave a fresh clone behind,
+        // so the first attempt goes to a service that has actually reported readiness.
+        let clone = self.inner.clone();
+        let mut service = std::mem::replace(&mut self.inner, clone);
         let config = Arc::clone(&self.config);
 
         // Extract max_attempts from request before moving it
@@ -365,6 +368,10 @@ where
                         config.event_listeners.emit(&event);
 
                         tokio::time::sleep(delay).await;
+
+                        // The previous call consumed the instance's readiness: observe it
+                        // again before the next attempt (Tower readiness contract).
+                        std::future::poll_fn(|cx| service.poll_ready(cx)).await?;
                         attempt += 1;
                     }
                 }
